@@ -105,7 +105,10 @@ def build(P, ex, f):
             pt, pr = f.raw('BLsig', 'proof')
             c['proof'], r['proof'] = pt, pr
     elif kind == 'transaction':
-        dt, dr = f.contract(P.get('destination', 'KT1'), 'destination')
+        if P.get('destination') == 'source':
+            dt, dr = st, ('implicit',) + tuple(sr)      # the sender pays itself: the same address text in the 21-byte and in the 22-byte role
+        else:
+            dt, dr = f.contract(P.get('destination', 'KT1'), 'destination')
         c.update(amount=bvx.DecStr(N['amount']), destination=dt)
         r.update(amount=N['amount'], destination=dr)
         ep = P.get('entrypoint')
@@ -126,7 +129,9 @@ def build(P, ex, f):
         c['script'] = {'code': code, 'storage': storage}
         r['script'] = {'code': code, 'storage': storage}
     elif kind == 'delegation':
-        if P.get('delegate'):
+        if P.get('delegate') == 'source':
+            c['delegate'], r['delegate'] = st, sr
+        elif P.get('delegate'):
             dt, dr = f.pkh(P['delegate'], 'delegate')
             c['delegate'], r['delegate'] = dt, dr
     elif kind == 'register_global_constant':
@@ -223,10 +228,20 @@ def op_forge_module():
     if _OPF is None:
         from vf import bvx
 
+        import sys
+
         F = mbv.forge_module()
-        M = bvx.load_module('/repo/src/pytezos/operation/forge.py', 'bvx_operation_forge')
-        for n in ('forge_address', 'forge_array', 'forge_base58', 'forge_bool', 'forge_int16', 'forge_int32', 'forge_micheline', 'forge_nat', 'forge_public_key', 'forge_script'):
-            setattr(M, n, getattr(F, n))
+        # the module is re-instantiated with its `from pytezos.michelson.forge import ...` lines resolving to the proxy-aware re-instantiation of that
+        # module, so that anything the module builds around those functions at import time (wrappers, tables) is kept
+        real = sys.modules.get('pytezos.michelson.forge')
+        sys.modules['pytezos.michelson.forge'] = F
+        try:
+            M = bvx.load_module('/repo/src/pytezos/operation/forge.py', 'bvx_operation_forge')
+        finally:
+            if real is not None:
+                sys.modules['pytezos.michelson.forge'] = real
+            else:
+                del sys.modules['pytezos.michelson.forge']
         M.reserved_entrypoints = SymDict(M.reserved_entrypoints)
         _OPF = M
     return _OPF
@@ -496,6 +511,9 @@ def obligations(tier):
     add('transfer_ticket', [{'kind': 'transfer_ticket', 'wide': 'ticket_amount', 'entrypoint': 'default'}])
     add('transfer_ticket/to-implicit', [{'kind': 'transfer_ticket', 'destination': 'tz1', 'entrypoint': 'receive'}])
     add('smart_rollup_add_messages', [{'kind': 'smart_rollup_add_messages', 'nmsg': 2, 'n': 2}])
+    add('transaction/to-self', [dict(tx, destination='source', wide='none')])
+    add('group/delegation-to-self+transaction-to-self', [{'kind': 'delegation', 'delegate': 'source', 'wide': 'none'}, dict(tx, destination='source', wide='none')])
+    add('group/transaction-to-self+delegation-to-self', [dict(tx, destination='source', wide='none'), {'kind': 'delegation', 'delegate': 'source', 'wide': 'none'}])
     add('smart_rollup_add_messages/empty', [{'kind': 'smart_rollup_add_messages', 'nmsg': 0}])
     for lens in ([0], [0, 1], [1, 0], [0, 0, 2]):
         add(f'smart_rollup_add_messages/lengths={lens}', [{'kind': 'smart_rollup_add_messages', 'lens': lens}])
